@@ -135,6 +135,9 @@ def discharge(ob, timeout_s=10, second_solver=False):
         ob.model = model
         ob.time = time.time() - t0
         return ob
+    if z3.is_true(ob.goal):
+        ob.status, ob.backend, ob.time = UNSAT, "simplifier", 0.0
+        return ob
     query = ob.hyps + [z3.Not(ob.goal)]
     has_q = any(is_quantified(f) for f in query)
     first = timeout_s * 1000 if not has_q else min(3000, timeout_s * 1000)
